@@ -98,6 +98,8 @@ class RefSim:
                     for n in expr.names(fn):
                         if n in self.pars:
                             d.add(n)
+            if p.get("deriv"):
+                d.discard(name)  # a derivative parameter's function may mention the parameter itself (its previous value)
             deps[name] = d
         order, done = [], set()
         names = list(self.pars)
@@ -184,6 +186,7 @@ class RefSim:
                 elig = sum(self.size(state, pop, c) for pop in q["pops"] for c in q["comps"])
                 cov[q["name"]] = progref.coverage_at(q, instr, t, self.dt, elig)["fraction"]
         covouts = {(c["par"], c["pop"]): c for c in (progs["covouts"] if progs else [])}
+        prog_scale = {}
         for name in self.order:
             p = self.pars[name]
             fn = p.get("fn")
@@ -242,13 +245,19 @@ class RefSim:
                 else:
                     v = datainterp.series_value(self.data["q"][name][pop], t) * f
                 if active and (name, pop) in covouts:
-                    out, _ = progref.outcome(covouts[(name, pop)], cov)
+                    co_ = covouts[(name, pop)]
+                    out, _ = progref.outcome(co_, cov)
+                    conv_ = 1.0
                     if p["fmt"] == "number":
                         src = sum(self.size(state, pop, l["src"]) for l in self.links if l["sp"] == pop and l["par"] == name)
-                        out = out * src / self.dt
+                        conv_ = src / self.dt
                     elif p["fmt"] in ("rate", "probability"):
-                        out = out / self.dt
+                        conv_ = 1.0 / self.dt
+                    out = out * conv_
                     v = out
+                    # conditioning of a program outcome (cancellation near full coverage): exact only relative to the outcomes' magnitude
+                    mag_ = max([abs(co_["base"])] + [abs(x_) for x_ in co_["progs"].values()] + [abs(float(x_)) for x_ in (co_.get("imp") or {}).values()])
+                    prog_scale[(pop, name)] = abs(conv_) * mag_
                 newvals[pop] = v
             for pop in self.pops:
                 v = newvals[pop]
@@ -260,7 +269,8 @@ class RefSim:
                     # one-step mode: where the value agrees with the given one to 1e-9, continue with the given one, so that
                     # dependents are evaluated from the same inputs (a -1e-17 instead of 0 under a square root is not a rule difference)
                     w = snap.get(pop, {}).get(name)
-                    if w is not None and (v == w or (math.isfinite(v) and math.isfinite(w) and abs(v - w) <= 1e-9 * max(1.0, abs(v), abs(w)))):
+                    ps_ = prog_scale.get((pop, name), 0.0)
+                    if w is not None and (v == w or (math.isfinite(v) and math.isfinite(w) and abs(v - w) <= 1e-9 * max(1.0, abs(v), abs(w), ps_ if math.isfinite(ps_) else 0.0))):
                         v = w
                 vals[pop][name] = v
         if not only_flow_dependent:
